@@ -259,6 +259,25 @@ def split_case(case):
 
 
 # ---------------------------------------------------------------- implicit through the real code
+def shaped(rhs, jac, N, rows):
+    """the same ODE with its N unknowns laid out as a (rows, ceil(N/rows)) matrix (zero padding; 'all states' includes states with several axes)"""
+    cols = -(-N // rows)
+    shape = (rows, cols)
+
+    def f(t, y, **kw):
+        v = np.reshape(y, (-1,))
+        out = np.zeros(rows * cols, dtype=v.dtype)
+        out[:N] = rhs(t, v[:N], **kw)
+        return out.reshape(shape)
+
+    def J(t, y, **kw):
+        v = np.reshape(y, (-1,))
+        full = np.zeros((rows * cols, rows * cols), dtype=v.dtype)
+        full[:N, :N] = jac(t, v[:N], **kw)
+        return full.reshape(shape + shape)
+    return f, J, shape
+
+
 def implicit_case(case):
     de, I = _imports()
     r = Res()
@@ -268,18 +287,25 @@ def implicit_case(case):
     size, U, V, gam, off = trees.gen(q)
     rhs, N = trees.universal(q)
     jac = trees.universal_jac(q)
+    sshape = (N,)
+    if case.get("rows"):
+        rhs, jac, sshape = shaped(rhs, jac, N, case["rows"])
     rr = de.DiffRHS(rhs)
     rr.hook_jacobian_call(jac)
     tolv = 1e-14
-    m = M((N,), dtype=np.dtype(np.float64), rtol=tolv, atol=tolv)
+    m = M(sshape, dtype=np.dtype(np.float64), rtol=tolv, atol=tolv)
     h = np.float64(case["h"])
     try:
-        _, (dT, dY) = m(rr, np.float64(0), np.zeros(N), {}, h)
+        _, (dT, dY) = m(rr, np.float64(0), np.zeros(sshape), {}, h)
     except de.exception_types.FailedToMeetTolerances:
         r.n += 1
         r.out(("implicit", case["method"], "no-accept"))
         r.add("implicit_not_accepted")
         return r
+    if np.shape(dY) != sshape:
+        r.v("C01/implicit-code-shape/%s" % case["method"], "the increment has the shape of the state", case, observed=list(np.shape(dY)), expected=list(sshape))
+        return r
+    dY = np.reshape(dY, (-1,))[:N]
     r.n += N
     dT = float(dT)
     exact = (dT ** size[:N]) / np.asarray(gam[:N], dtype=np.float64)
@@ -317,7 +343,7 @@ def richardson_attained(base, k, qcap, h=1.0):
     if implicit:
         dt = np.float64
         rr.hook_jacobian_call(trees.universal_jac(q))
-        m = R((dim,), dtype=np.dtype(dt), rtol=dt(1e-14), atol=dt(1e-14))
+        m = R((dim,), dtype=np.dtype(dt), rtol=dt(1e-12), atol=dt(1e-12))       # (not tighter: the stage solve must be able to reach a fraction of it in float64)
         floor = 1e-7
         h = 0.5
     else:
@@ -441,6 +467,8 @@ def cases(ctx):
     out["split"] = [dict(method=M.__name__, h=h, mask=mk) for M in split_classes() for h in (1.0, -1.0) for mk in ("default", "explicit", "swapped")]
     impl = [M for M in rk_classes() if M in I.implicit_methods()]
     out["implicit"] = [dict(method=M.__name__, h=h) for M in impl for h in ((0.5, -0.5) if ctx.quick else (0.5, -0.5, 0.25, -0.25))]
+    # the same through a matrix-shaped state (two non-singleton axes, not square)
+    out["implicit"] += [dict(method=M.__name__, h=h, rows=2) for M in impl for h in ((0.5,) if ctx.quick else (0.5, -0.5))]
     qcap = 11 if ctx.quick else 15
     bases = [M for M in I.explicit_methods()] + [M for M in impl if int(M.__order__) <= 6]
     out["richardson"] = [dict(base=M.__name__, k=k, qcap=(qcap if M in I.explicit_methods() else 8)) for M in bases for k in (2, 3, 4, 5)]
